@@ -458,6 +458,83 @@ func genCase(h *rt.H) []string {
 		}
 		return append(ops, "flush", "check")
 	}
+	if h.Chance(0.06) {
+		// RE-ADDRESSED NODE: a node that carries tunnel addresses gets a new main IP (and subnet) while its tunnel
+		// addresses stay the same; the routes for the tunnel IPs must follow (DstNodeIp, SameSubnet).
+		ops[0] = fmt.Sprintf("new %s %s %s %s %s %s", b(h.Chance(0.8)), b(h.Chance(0.5)), b(h.Chance(0.3)), rsrc, b(config.New().NFTablesMode != "Disabled"), idTableToken())
+		pair := rt.Pick(h, []struct {
+			name string
+			a, b int
+		}{{"node:h1", 5, 6}, {"node:h1", 6, 5}, {"node:h1", 7, 8}, {"node:h1", 8, 7}, {"node:h0", 5, 6}, {"node:h0", 6, 5}})
+		pre := []string{kv("pool:10.0", rt.Pick(h, []int{1, 2, 3})), kv("pool:192.168", rt.Pick(h, []int{0, 1, 2}))}
+		if pair.name == "node:h1" {
+			pre = append(pre, kv("node:h0", rt.Pick(h, []int{1, 2, 4, 5})))
+		} else {
+			pre = append(pre, kv("node:h1", rt.Pick(h, []int{1, 2, 5})))
+		}
+		if h.Bool() {
+			pre = append(pre, kv("block:10.0.1.0", rt.Pick(h, []int{1, 2})))
+		}
+		h.Rng.Shuffle(len(pre), func(i, j int) { pre[i], pre[j] = pre[j], pre[i] })
+		ops = append(ops, pre...)
+		if h.Bool() {
+			ops = append(ops, "insync")
+		}
+		ops = append(ops, kv(pair.name, pair.a))
+		if h.Chance(0.6) {
+			ops = append(ops, "flush")
+		}
+		ops = append(ops, kv(pair.name, pair.b))
+		if !strings.Contains(strings.Join(ops, ";"), ";insync") {
+			ops = append(ops, "insync")
+		}
+		return append(ops, "flush", "check")
+	}
+	if h.Chance(0.10) {
+		// INACTIVE-THEN-ACTIVE-AGAIN inside ONE flush window: a profile is active and already sent with real
+		// rules; the last local endpoint naming it goes away; the profile's rules are deleted / replaced by an
+		// invalid or a different version; another local endpoint naming it appears; only then a flush.  The
+		// dataplane must end up with what a fresh Felix computes for the final state (deny stand-in / new rules).
+		type onOff struct {
+			name    string
+			on, off []int
+		}
+		motif := rt.Pick(h, []struct {
+			prof string
+			eps  []onOff
+		}{
+			{"p0", []onOff{{"wep:w0", []int{1, 2, 6, 7}, []int{3, 4, 0}}, {"wep:w1", []int{2, 3, 4, 5}, []int{1, 0}}, {"hep:e0", []int{1}, []int{2, 0}}}},
+			{"p1", []onOff{{"wep:w0", []int{2, 5, 6, 7}, []int{1, 3, 4, 0}}, {"wep:w1", []int{1, 2, 4, 5}, []int{3, 0}}, {"hep:e0", []int{3}, []int{2, 0}}}},
+			{"p2", []onOff{{"wep:w0", []int{3}, []int{1, 2, 4, 0}}, {"wep:w1", []int{3, 4, 5}, []int{1, 2, 0}}}},
+		})
+		e1 := rt.Pick(h, motif.eps)
+		e2 := rt.Pick(h, motif.eps)
+		first := rt.Pick(h, []int{1, 2, 3})
+		ops = append(ops, kv("prules:"+motif.prof, first), kv(e1.name, rt.Pick(h, e1.on)))
+		if h.Bool() {
+			ops = append(ops, kv("tier:default", 1), rt.Pick(h, []string{kv("pol:gnp-a", 1), kv("pol:gnp-b", 6)}))
+		}
+		ops = append(ops, "insync", "flush")
+		// the window: no flush between these steps
+		ops = append(ops, kv(e1.name, rt.Pick(h, e1.off)))
+		ops = append(ops, kv("prules:"+motif.prof, rt.Pick(h, []int{0, 0, 4, 5, 1 + first%3})))
+		if e2.name != e1.name && h.Chance(0.3) { // make sure the other endpoint does not already name the profile
+			ops = append(ops, kv(e2.name, rt.Pick(h, e2.off)))
+		}
+		ops = append(ops, kv(e2.name, rt.Pick(h, e2.on)), "flush", "check")
+		if h.Bool() {
+			return ops
+		}
+		n := 3 + h.Intn(10)
+		for i := 0; i < n; i++ {
+			e := rt.Pick(h, focus)
+			ops = append(ops, kv(e.name, h.Intn(len(e.variants))))
+			if h.Chance(0.3) {
+				ops = append(ops, "flush")
+			}
+		}
+		return append(ops, "flush", "check")
+	}
 	n := 5 + h.Intn(45)
 	insyncAt := h.Intn(n + 1)
 	flushMode := h.Intn(4) // 0: after every update, 1: random, 2: only at end, 3: batches
